@@ -205,7 +205,14 @@ s={}\r\n\
             write!(f, "{bw}\r\n")?;
         }
 
-        write!(f, "{}\r\n{}", self.time, self.ice_options)?;
+        write!(f, "{}\r\n", self.time)?;
+
+        // `sendrecv` is the default when no session level direction is present
+        if !matches!(self.direction, Direction::SendRecv) {
+            write!(f, "{}\r\n", self.direction)?;
+        }
+
+        write!(f, "{}", self.ice_options)?;
 
         if self.ice_lite {
             f.write_str("a=ice-lite\r\n")?;
